@@ -78,7 +78,7 @@ func (nd *KVNode) scanCommand(cmd redcon.Command) (interface{}, error) {
 
 	var nextCursor []byte
 	length := len(ay)
-	if length < count || (count == 0 && length == 0) {
+	if length < count || length == 0 {
 		nextCursor = []byte("")
 	} else {
 		nextCursor = ay[len(ay)-1]
@@ -164,7 +164,7 @@ func (nd *KVNode) advanceScanCommand(cmd redcon.Command) (interface{}, error) {
 	var nextCursor []byte
 
 	length := len(ay)
-	if length < count || (count == 0 && length == 0) {
+	if length < count || length == 0 {
 		nextCursor = []byte("")
 	} else {
 		item := ay[len(ay)-1]
@@ -226,7 +226,7 @@ func (nd *KVNode) hscanCommand(conn redcon.Conn, cmd redcon.Command) {
 	}
 
 	var nextCursor []byte
-	if len(ay) < count || (count == 0 && len(ay) == 0) {
+	if len(ay) < count || len(ay) == 0 {
 		nextCursor = []byte("")
 	} else {
 		nextCursor = ay[len(ay)-1].Key
@@ -271,7 +271,7 @@ func (nd *KVNode) sscanCommand(conn redcon.Conn, cmd redcon.Command) {
 		return
 	}
 	var nextCursor []byte
-	if len(ay) < count || (count == 0 && len(ay) == 0) {
+	if len(ay) < count || len(ay) == 0 {
 		nextCursor = []byte("")
 	} else {
 		nextCursor = ay[len(ay)-1]
@@ -323,7 +323,7 @@ func (nd *KVNode) zscanCommand(conn redcon.Conn, cmd redcon.Command) {
 	}
 
 	var nextCursor []byte
-	if len(ay) < count || (count == 0 && len(ay) == 0) {
+	if len(ay) < count || len(ay) == 0 {
 		nextCursor = []byte("")
 	} else {
 		nextCursor = ay[len(ay)-1].Member
